@@ -28,35 +28,35 @@ EVIDENCE = os.environ.get("VERIF_EVIDENCE_DIR", os.path.join(ROOT, "evidence")) 
 DEC = ["std", "radix"]
 DEC_T = ["std", "radix", "nostd", "pow2", "compact", "radix_compact"]
 PLAN = {
-    "C01": dict(q=dict(gated=[("std", 3000), ("radix", 3000)], miri=("std", 8, 4)),
+    "C01": dict(q=dict(gated=[("std", 6000), ("radix", 6000)], miri=("std", 8, 4)),
                 t=dict(gated=[(v, 40000) for v in DEC_T] + [("std_rel", 40000)], miri=("std", 48, 8))),
-    "C02": dict(q=dict(gated=[("std", 3000), ("radix", 3000)], miri=("std", 8, 4)),
+    "C02": dict(q=dict(gated=[("std", 6000), ("radix", 6000)], miri=("std", 8, 4)),
                 t=dict(gated=[(v, 40000) for v in DEC_T], miri=("std", 48, 8))),
-    "C03": dict(q=dict(gated=[("radix", 5000), ("std", 2000)], miri=("radix", 12, 4)),
+    "C03": dict(q=dict(gated=[("radix", 10000), ("std", 4000)], miri=("radix", 12, 4)),
                 t=dict(gated=[("radix", 60000), ("std", 30000), ("pow2", 30000), ("compact", 30000), ("radix_compact", 30000), ("radix_rel", 40000)], miri=("radix", 64, 8))),
-    "C04": dict(q=dict(gated=[("radix", 5000), ("std", 2000)], miri=("std", 12, 4)),
+    "C04": dict(q=dict(gated=[("radix", 10000), ("std", 4000)], miri=("std", 12, 4)),
                 t=dict(gated=[("radix", 60000), ("std", 30000), ("pow2", 30000), ("compact", 30000), ("radix_compact", 30000), ("radix_rel", 40000)], miri=("std", 64, 8))),
-    "C05": dict(q=dict(gated=[("radix", 4000), ("pow2", 2000)], miri=("radix", 8, 4)),
+    "C05": dict(q=dict(gated=[("radix", 8000), ("pow2", 4000)], miri=("radix", 8, 4)),
                 t=dict(gated=[("radix", 60000), ("pow2", 30000), ("radix_compact", 30000)], miri=("radix", 48, 8))),
-    "C06": dict(q=dict(gated=[("pow2", 3000), ("radix", 3000)], miri=("pow2", 12, 4)),
+    "C06": dict(q=dict(gated=[("pow2", 6000), ("radix", 6000)], miri=("pow2", 12, 4)),
                 t=dict(gated=[("pow2", 40000), ("radix", 40000)], miri=("pow2", 48, 8))),
-    "C07": dict(q=dict(gated=[("radix", 5000)], miri=("radix", 12, 4)),
+    "C07": dict(q=dict(gated=[("radix", 10000)], miri=("radix", 12, 4)),
                 t=dict(gated=[("radix", 60000), ("radix_compact", 30000)], miri=("radix", 48, 8))),
-    "C08": dict(q=dict(gated=[("radix", 4000), ("std", 2000)], miri=("radix", 8, 4)),
+    "C08": dict(q=dict(gated=[("radix", 8000), ("std", 4000)], miri=("radix", 8, 4)),
                 t=dict(gated=[("radix", 60000), ("std", 30000), ("pow2", 30000), ("compact", 30000)], miri=("radix", 48, 8))),
-    "C09": dict(q=dict(gated=[("radix", 4000), ("std", 2500), ("radix_rel", 2000)], miri=("radix", 12, 4)),
+    "C09": dict(q=dict(gated=[("radix", 8000), ("std", 5000), ("radix_rel", 4000)], miri=("radix", 12, 4)),
                 t=dict(gated=[("radix", 60000), ("std", 30000), ("pow2", 30000), ("compact", 30000), ("radix_compact", 30000), ("radix_rel", 40000), ("std_rel", 20000)], miri=("radix", 64, 8))),
-    "C10": dict(q=dict(gated=[("std", 3000), ("radix", 2500), ("std_rel", 2000)], miri=("std", 8, 4)),
+    "C10": dict(q=dict(gated=[("std", 6000), ("radix", 5000), ("std_rel", 4000)], miri=("std", 8, 4)),
                 t=dict(gated=[(v, 40000) for v in DEC_T] + [("std_rel", 40000), ("radix_rel", 40000)], miri=("std", 48, 8))),
-    "C11": dict(q=dict(gated=[("std", 3000), ("radix", 3000)], miri=("std", 8, 4)),
+    "C11": dict(q=dict(gated=[("std", 6000), ("radix", 6000)], miri=("std", 8, 4)),
                 t=dict(gated=[(v, 40000) for v in DEC_T], miri=("std", 48, 8))),
-    "C15": dict(q=dict(gated=[("std", 3000), ("radix", 2000)], miri=("std", 8, 4)),
+    "C15": dict(q=dict(gated=[("std", 6000), ("radix", 4000)], miri=("std", 8, 4)),
                 t=dict(gated=[(v, 30000) for v in DEC_T], miri=("std", 32, 8))),
-    "C16": dict(q=dict(gated=[], cross=(["std", "nostd", "pow2", "radix", "compact"], 2000), miri=None),
+    "C16": dict(q=dict(gated=[], cross=(["std", "nostd", "pow2", "radix", "compact"], 3000), miri=None),
                 t=dict(gated=[], cross=(["std", "nostd", "pow2", "radix", "compact", "radix_compact", "format"], 30000), miri=None)),
-    "C17": dict(q=dict(gated=[("std", 3000), ("radix", 3000)], miri=("std", 16, 4)),
+    "C17": dict(q=dict(gated=[("std", 6000), ("radix", 6000)], miri=("std", 16, 4)),
                 t=dict(gated=[(v, 40000) for v in DEC_T], miri=("std", 64, 8))),
-    "C19": dict(q=dict(gated=[("std", 3000), ("radix", 3000)], miri=("std", 8, 4)),
+    "C19": dict(q=dict(gated=[("std", 6000), ("radix", 6000)], miri=("std", 8, 4)),
                 t=dict(gated=[(v, 40000) for v in DEC_T], miri=("std", 32, 8))),
 }
 
